@@ -669,7 +669,51 @@ def extract_reader(out: Out, srcs):
                "client.py: remaining-length tests of _handle_pubrel/_handle_pubrec/_handle_pubackcomp (<2, !=2, >2, >3), _handle_disconnect (>0, >1), _handle_unsuback (<4, !=2), _handle_connack (<2, !=2) are the ones Paho.Model.Reader.parseBody encodes")
 
 
-EXTRACTORS = [extract_bytes, extract_tables, extract_keepalive, extract_reader]
+def extract_backoff(out: Out, srcs):
+    F = "Consts"
+    c = srcs.get("client.py")
+
+    def bw():
+        f = c.func("Client._reconnect_wait")
+        iff = None
+        for n in walk(f, ast.If):
+            if unparse(n.test) == "self._reconnect_delay is None":
+                iff = n
+        if iff is None:
+            raise Missing("if self._reconnect_delay is None")
+        if unparse(iff.body[0]) != "self._reconnect_delay = self._reconnect_min_delay":
+            raise Missing("self._reconnect_delay = self._reconnect_min_delay")
+        a = iff.orelse[0]
+        if not (isinstance(a, ast.Assign) and unparse(a.targets[0]) == "self._reconnect_delay" and isinstance(a.value, ast.Call)
+                and unparse(a.value.func) in ("min", "max") and len(a.value.args) == 2):
+            raise Missing("self._reconnect_delay = min(self._reconnect_delay * 2, self._reconnect_max_delay)")
+        fn = unparse(a.value.func)
+        m = a.value.args[0]
+        if not (isinstance(m, ast.BinOp) and isinstance(m.op, ast.Mult) and unparse(m.left) == "self._reconnect_delay"
+                and unparse(a.value.args[1]) == "self._reconnect_max_delay"):
+            raise Missing("min(self._reconnect_delay * 2, self._reconnect_max_delay)")
+        body = unparse(f)
+        for frag in ("target_time = now + self._reconnect_delay", "time.sleep(min(remaining, 1))", "remaining > 0"):
+            if frag not in body:
+                raise Missing("_reconnect_wait: " + frag)
+        k = unparse(c.func("Client._handle_connack"))
+        if "if self._state != _ConnectionState.MQTT_CS_DISCONNECTING:" not in k or "self._reconnect_delay = None" not in k:
+            raise Missing("_handle_connack: reset of _reconnect_delay on an accepted CONNACK")
+        init = unparse(c.func("Client.__init__"))
+        if "self._reconnect_delay: int | None = None" not in init:
+            raise Missing("__init__: self._reconnect_delay = None")
+        return fn, const(m.right)
+    try:
+        fn, factor = bw()
+        out.add(F, "backoffFactor", "Nat", str(factor), "client.py Client._reconnect_wait: self._reconnect_delay * 2")
+        out.add(F, "backoffMinMax", "Nat → Nat → Nat", "Nat.min" if fn == "min" else "Nat.max",
+                "client.py Client._reconnect_wait: min(delay * 2, self._reconnect_max_delay)")
+    except Missing as e:
+        out.missing(F, "backoffFactor", e)
+        out.missing(F, "backoffMinMax", e)
+
+
+EXTRACTORS = [extract_bytes, extract_tables, extract_keepalive, extract_reader, extract_backoff]
 
 
 def register(fn):
